@@ -6,7 +6,7 @@ import z3
 DEFAULT_TIMEOUT_MS = 20000
 
 
-def discharge(w, ob, timeout_ms=DEFAULT_TIMEOUT_MS, fuel=2):
+def discharge(w, ob, timeout_ms=DEFAULT_TIMEOUT_MS, fuel=3):
     from .specs import unfold
     t0 = time.time()
     if ob.trivial is not None:
